@@ -250,4 +250,136 @@ theorem dstCols_map (f2 : t.lonMax - t.lonMin = 40) :
 
 end masks
 
+/-! ### one iteration of the tile loop -/
+
+theorem length_latsOf (rF rL : ℤ) : (latsOf rF rL).length = (rL + 1 - rF).toNat := by
+  simp [latsOf, length_intRange]
+theorem length_lonsOf (cF cL : ℤ) : (lonsOf cF cL).length = (cL + 1 - cF).toNat := by
+  simp [lonsOf, length_intRange]
+
+theorem nodup_of_map_intRange {l : List ℕ} {g : ℕ → ℤ} {a b : ℤ} (h : l.map g = intRange a b) : l.Nodup := by
+  apply List.Nodup.of_map g
+  rw [h]
+  exact (pairwise_intRange a b).imp (fun h => ne_of_lt h)
+
+theorem mem_of_map_intRange {l : List ℕ} {off a b : ℤ} (h : l.map (fun (i : ℕ) => off + (i : ℤ)) = intRange a b)
+    (i : ℕ) : i ∈ l ↔ a ≤ off + i ∧ off + i ≤ b := by
+  rw [← mem_intRange, ← h, List.mem_map]
+  constructor
+  · intro hi; exact ⟨i, hi, rfl⟩
+  · rintro ⟨i', hi', he⟩
+    have : i' = i := by omega
+    rw [← this]; exact hi'
+
+theorem elevStep_def (pix : Tile → ℕ → ℕ → ℤ) (latsD lonsD : List ℚ) (r' : Rect) (E : Array ℤ) (t : Tile) :
+    elevStep pix latsD lonsD r' E t =
+      assign E lonsD.length
+        (cells (selIdx t.latMin t.latMax latsD) (selIdx t.lonMin t.lonMax lonsD))
+        ((cells (selIdx r'.latMin r'.latMax (tileLats t)) (selIdx r'.lonMin r'.lonMax (tileLons t))).map
+          (fun p => pix t p.1 p.2)) := rfl
+
+theorem elevStep_spec (pix : Tile → ℕ → ℕ → ℤ) (t : Tile) (ht : t ∈ tiles)
+    (rF rL cF cL : ℤ) (hr : rF ≤ rL) (hc : cF ≤ cL) (E : Array ℤ)
+    (hE : E.size = (latsOf rF rL).length * (lonsOf cF cL).length) :
+    ∃ E', elevStep pix (latsOf rF rL) (lonsOf cF cL) (blockRect rF rL cF cL) E t = .ok E' ∧
+      E'.size = E.size ∧
+      ∀ i, i < (latsOf rF rL).length → ∀ j, j < (lonsOf cF cL).length →
+        (InTile t (rF - 1 + i) (cF + j) →
+          E'[i * (lonsOf cF cL).length + j]? =
+            some (pix t (rF - 1 + i - rowOff t).toNat (cF + j - colOff t).toNat)) ∧
+        (¬ InTile t (rF - 1 + i) (cF + j) →
+          E'[i * (lonsOf cF cL).length + j]? = E[i * (lonsOf cF cL).length + j]?) := by
+  obtain ⟨f1, f2, -, -, -, -⟩ := tiles_facts t ht
+  have hsR := srcRows_map t rF rL cF cL f1
+  have hdR := dstRows_map t rF rL f1
+  have hsC := srcCols_map t rF rL cF cL f2
+  have hdC := dstCols_map t cF cL f2
+  have hnlat := length_latsOf rF rL
+  have hnlon := length_lonsOf cF cL
+  simp only [elevStep_def]
+  generalize selIdx (blockRect rF rL cF cL).latMin (blockRect rF rL cF cL).latMax (tileLats t) = sR at hsR ⊢
+  generalize selIdx (blockRect rF rL cF cL).lonMin (blockRect rF rL cF cL).lonMax (tileLons t) = sC at hsC ⊢
+  generalize selIdx t.latMin t.latMax (latsOf rF rL) = dR at hdR ⊢
+  generalize selIdx t.lonMin t.lonMax (lonsOf cF cL) = dC at hdC ⊢
+  generalize (latsOf rF rL).length = nlat at hnlat hE ⊢
+  generalize (lonsOf cF cL).length = nlon at hnlon hE ⊢
+  have eR : intRange (max (rF - 1) (rowOff t)) (min (rL - 1) (rowOff t + (tileH : ℤ) - 1)) =
+      intRange (max (rowOff t) (rF - 1)) (min (rowOff t + (tileH : ℤ) - 1) ((rF - 1) + ((rL + 1 - rF).toNat : ℤ) - 1)) := by
+    have a1 : max (rF - 1) (rowOff t) = max (rowOff t) (rF - 1) := max_comm _ _
+    have a2 : min (rL - 1) (rowOff t + (tileH : ℤ) - 1) =
+        min (rowOff t + (tileH : ℤ) - 1) ((rF - 1) + ((rL + 1 - rF).toNat : ℤ) - 1) := by omega
+    rw [a1, a2]
+  have eC : intRange (max cF (colOff t)) (min cL (colOff t + (tileW : ℤ) - 1)) =
+      intRange (max (colOff t) cF) (min (colOff t + (tileW : ℤ) - 1) (cF + ((cL + 1 - cF).toNat : ℤ) - 1)) := by
+    have a1 : max cF (colOff t) = max (colOff t) cF := max_comm _ _
+    have a2 : min cL (colOff t + (tileW : ℤ) - 1) =
+        min (colOff t + (tileW : ℤ) - 1) (cF + ((cL + 1 - cF).toNat : ℤ) - 1) := by omega
+    rw [a1, a2]
+  have hRows : sR.map (fun (r : ℕ) => rowOff t + (r : ℤ)) = dR.map (fun (i : ℕ) => (rF - 1) + (i : ℤ)) := by
+    rw [hsR, hdR, eR]
+  have hCols : sC.map (fun (c : ℕ) => colOff t + (c : ℤ)) = dC.map (fun (j : ℕ) => cF + (j : ℤ)) := by
+    rw [hsC, hdC, eC]
+  have hcells : (cells sR sC).map (fun p => (rowOff t + (p.1 : ℤ), colOff t + (p.2 : ℤ))) =
+      (cells dR dC).map (fun p => ((rF - 1) + (p.1 : ℤ), cF + (p.2 : ℤ))) := by
+    rw [cells_map sR sC (fun (r : ℕ) => rowOff t + (r : ℤ)) (fun (c : ℕ) => colOff t + (c : ℤ)),
+      cells_map dR dC (fun (i : ℕ) => (rF - 1) + (i : ℤ)) (fun (j : ℕ) => cF + (j : ℤ)), hRows, hCols]
+  have hlen : (cells sR sC).length = (cells dR dC).length := by
+    simpa using congrArg List.length hcells
+  have mdR := mem_of_map_intRange hdR
+  have mdC := mem_of_map_intRange hdC
+  have ndR : dR.Nodup := nodup_of_map_intRange hdR
+  have ndC : dC.Nodup := nodup_of_map_intRange hdC
+  have hnd : (cells dR dC).Nodup := List.Nodup.product ndR ndC
+  have hcol : ∀ p ∈ cells dR dC, p.2 < nlon := by
+    intro p hp
+    have := (mdC p.2).mp (mem_cells.mp hp).2
+    omega
+  have hin : ∀ p ∈ cells dR dC, p.1 * nlon + p.2 < E.size := by
+    intro p hp
+    have h1 := (mdR p.1).mp (mem_cells.mp hp).1
+    have h2 := hcol p hp
+    have h3 : p.1 < nlat := by omega
+    rw [hE]
+    calc p.1 * nlon + p.2 < p.1 * nlon + nlon := by omega
+      _ = (p.1 + 1) * nlon := by ring
+      _ ≤ nlat * nlon := Nat.mul_le_mul_right _ (by omega)
+  obtain ⟨E', h1, h2, h3, h4⟩ := assign_spec E nlon (cells dR dC)
+    ((cells sR sC).map (fun p => pix t p.1 p.2)) (by simp [hlen]) hnd hcol hin
+  refine ⟨E', h1, h2, ?_⟩
+  intro i hi j hj
+  constructor
+  · intro hT
+    obtain ⟨t1, t2, t3, t4⟩ := hT
+    have hiR : i ∈ dR := (mdR i).mpr (by unfold tileH; omega)
+    have hjC : j ∈ dC := (mdC j).mpr (by unfold tileW; omega)
+    have hmem : (i, j) ∈ cells dR dC := mem_cells.mpr ⟨hiR, hjC⟩
+    obtain ⟨k, hk, hke⟩ := List.mem_iff_getElem.mp hmem
+    have hk' : k < ((cells sR sC).map (fun p => (rowOff t + (p.1 : ℤ), colOff t + (p.2 : ℤ)))).length := by
+      simp [hlen, hk]
+    have hks : k < (cells sR sC).length := by rw [hlen]; exact hk
+    have hg : (rowOff t + (((cells sR sC)[k]'hks).1 : ℤ), colOff t + (((cells sR sC)[k]'hks).2 : ℤ)) =
+        ((rF - 1) + (i : ℤ), cF + (j : ℤ)) := by
+      have := List.getElem_of_eq hcells hk'
+      simpa only [List.getElem_map, hke] using this
+    have hv := h3 k hk
+    rw [List.getElem_map] at hv
+    simp only [hke] at hv
+    generalize (cells sR sC)[k]'hks = p at hg hv
+    obtain ⟨p1, p2⟩ := p
+    simp only [Prod.mk.injEq] at hg
+    rw [hv]
+    have ea : p1 = (rF - 1 + (i : ℤ) - rowOff t).toNat := by omega
+    have eb : p2 = (cF + (j : ℤ) - colOff t).toNat := by omega
+    rw [ea, eb]
+  · intro hT
+    apply h4 i j hj
+    intro hmem
+    apply hT
+    have a := (mdR i).mp (mem_cells.mp hmem).1
+    have b := (mdC j).mp (mem_cells.mp hmem).2
+    unfold tileH at a
+    unfold tileW at b
+    unfold InTile
+    omega
+
 end Srtm
